@@ -261,12 +261,12 @@ PROPS.update({
             "operations on the task set (wake of a sub-task, take_scheduled, discard) are atomic in M-BCAST: the lock-free Treiber stack inside TaskSet and the DiatomicWaker are not modelled at instruction granularity (the repository's loom tests cover that); wake-ups are injected between polls, not during a poll",
             "CachedRwLock is modelled with a sequentially consistent epoch and an atomic write (the Mutex makes writes atomic; the Relaxed epoch load is outside the model)",
             "repliers are scripted: what a replier computes from its request is the harness's choice; the model shows which reply ends up where",
-            "PARTIAL: termination of the broadcast once every accepting replier has replied and woken its sub-task is checked by a monitor on the implementation and by the differential runs, not proved (the arming/notification half of the argument is proved: pending_broadcast_is_woken_by_any_sub_task)",
+            "completion (broadcast_completes_once_all_have_replied) is proved for wake-ups delivered between polls; a wake-up racing with the poll loop itself is inside TaskSet/DiatomicWaker, i.e. outside the model",
         ],
         "trusted_base": ["M-BCAST is hand-written from ports/output/broadcaster.rs, util/task_set.rs, util/cached_rw_lock.rs; tied by the `bcast` engine (responses, per-sub-future poll counts, notifications)", "verif hook VQueryBroadcaster (scripted Sender implementation) and VCachedRwLock"],
-        "explanation": "theorems one_reply_per_accepting_replier_in_connection_order, replies_come_from_the_repliers, request_is_mapped_per_connection, pending_broadcast_is_woken_by_any_sub_task, every_reachable_state_is_well_formed, clones_share_one_connection_list, a_connection_is_never_forgotten",
-        "level_text": "Lean 4 invariant proof over the broadcaster state machine for every history of broadcasts, polls, cancellations, replies in any order, spurious and stale wake-ups and partially read reply iterators, any number of repliers: a Ready poll returns exactly one reply per accepting connection, in connection order, each consumed from its own replier during this broadcast (never stale), only after all have replied, and never finds an empty slot; a Pending poll leaves the caller registered so that the next sub-task wake-up notifies it once; the cached lock returns the shared connection list to every clone after any history; tied to the code by running the real QueryBroadcaster/TaskSet/CachedRwLock/Output clones and the model on identical operation sequences, comparing results, per-sub-future poll counts and notifications",
-        "level_note": "trusted: Lean kernel, propext/Classical.choice/Quot.sound, the differential harness, the scripted-sender hook; atomicity of task-set operations and SC epoch are modelling assumptions; PARTIAL: completion (liveness) is monitored, not proved",
+        "explanation": "theorems one_reply_per_accepting_replier_in_connection_order, replies_come_from_the_repliers, request_is_mapped_per_connection, pending_broadcast_is_woken_by_any_sub_task, broadcast_completes_once_all_have_replied, every_reachable_state_is_well_formed, clones_share_one_connection_list, source_bumps_the_shared_epoch, a_connection_is_never_forgotten",
+        "level_text": "Lean 4 invariant proof over the broadcaster state machine for every history of broadcasts, polls, cancellations, replies in any order, spurious and stale wake-ups and partially read reply iterators, any number of repliers: a Ready poll returns exactly one reply per accepting connection, in connection order, each consumed from its own replier during this broadcast (never stale), only after all have replied, and never finds an empty slot; a Pending poll leaves the caller registered so that the next sub-task wake-up notifies it once, and once every missing replier has replied and woken its sub-task the next poll returns Ready; the cached lock returns the shared connection list to every clone after any history; tied to the code by running the real QueryBroadcaster/TaskSet/CachedRwLock/Output clones and the model on identical operation sequences, comparing results, per-sub-future poll counts and notifications",
+        "level_note": "trusted: Lean kernel, propext/Classical.choice/Quot.sound, the differential harness, the scripted-sender hook; atomicity of task-set operations and SC epoch are modelling assumptions",
     },
     "C19": {
         "props_module": "NexoVerif.Props.C19",
